@@ -156,6 +156,10 @@ func scenarios(tier string) []vlib.Scenario {
 		add(params{Policy: "immediate", QoS: message.QoSReliable, Writers: 1, AckBurst: 1040})
 		add(params{Policy: "immediate", QoS: message.QoSReliable, Writers: 1, AckBurst: 1040, P: 1})
 	}
+	// an interval policy with a non-positive interval
+	for _, pol := range []string{"interval0", "intsize0"} {
+		add(params{Policy: pol, QoS: message.QoSReliable, Ops: []string{"wA1", "Z", "wB1"}, Writers: 1})
+	}
 	// close timeout 0
 	for _, pol := range []string{"none", "interval"} {
 		add(params{Policy: pol, QoS: message.QoSReliable, Ops: []string{"wA1", "wB1"}, Writers: 1, CT0: true})
@@ -333,8 +337,15 @@ func (w *world) script() *sim.Script {
 	return s
 }
 
+// pol is the policy the stream behaves as: a non-positive interval stands for the default interval (100 ms).
+func (w *world) pol() string { return strings.TrimSuffix(w.p.Policy, "0") }
+
 func (w *world) policy() iscp.UpstreamOption {
 	switch w.p.Policy {
+	case "interval0":
+		return iscp.WithUpstreamFlushPolicyIntervalOnly(0)
+	case "intsize0":
+		return iscp.WithUpstreamFlushPolicyIntervalOrBufferSize(-time.Second, 4)
 	case "none":
 		return iscp.WithUpstreamFlushPolicyNone()
 	case "interval":
